@@ -34,6 +34,8 @@ def oracle(ctx, specs, k, rnd, dups):
             return ctx.fail("C05/" + e.kind, [specs, k, "aliased"], f"{e} ; inferred {show(Tsh)} for {specs} with equal sub-containers shared as one object (k={k})")
         except Exception:
             pass
+    if "twin" in repr(specs):
+        return  # two classes that print alike cannot both be found again by module + qualname
     # the merge as the pipeline performs it: on per-value types that went through the store encoding
     vs2 = [vals.build(s) for s in specs]
     try:
